@@ -17,6 +17,7 @@
   X(5,5,5) X(6,6,6) X(5,6,5) X(6,5,6) X(2,6,3) X(3,5,2)
 #define CTRIPLES(X) X(1,1,1) X(2,2,2) X(2,3,2) X(3,2,3) X(3,3,3) X(1,3,2) X(2,1,3) X(4,4,4)
 
+static std::string dhexs (double x) { unsigned long long u; memcpy (&u, &x, 8); char b[20]; snprintf (b, 20, "%016llx", u); return b; }
 static double hexdouble (const std::string& s)
 { unsigned long long u = std::stoull (s, 0, 16); double d; memcpy (&d, &u, 8); return d; }
 
@@ -26,6 +27,7 @@ static void do_basis_op (Basis<double>& b, Args& A)
   if (k == "lin") b.set_basis (Signal::Linear);
   else if (k == "cir") b.set_basis (Signal::Circular);
   else if (k == "ell") { double o = hexdouble(A.next()); double e = hexdouble(A.next()); for (int i=0;i<4;i++) A.next(); b.set_basis (o, e); }
+  else if (k == "bad") { try { b.set_basis (Signal::Elliptical); } catch (std::exception&) { } }     // refused settings (the call throws)
   else throw ProtocolError ("basis");
 }
 
